@@ -14,7 +14,7 @@ pub fn fingerprint(g: &G) -> u64 {
     for n in g.get_all_nodes() {
         s.push_str(&format!("{:?}/{:?};", n.name, n.attributes));
     }
-    s.push_str(&format!("{:?}", graph_edge_multiset(g)));
+    s.push_str(&format!("{:?}", graph_edge_multiset_a(g)));
     let mut snap = g.verif_snapshot();
     snap.nodes_map.sort();
     snap.nodes_map_rev.sort();
@@ -74,6 +74,12 @@ pub fn compare_state(g: &G, m: &Model, ctx: &str, out: &mut Outcome) {
             if strip(&ge) == strip(&me) { format!("{}/edge_multiset/weights", ctx) } else { format!("{}/edge_multiset/pairs", ctx) },
             format!("graph edges {:?} model {:?}", ge, me),
         );
+    } else {
+        // same pairs and weights: the stored objects must also be the ones the policies dictate
+        // (a replaced edge takes the new edge's attributes, a kept one keeps its own)
+        let ga = graph_edge_multiset_a(g);
+        let ma = m.edge_multiset_a();
+        out.check(ga == ma, &format!("{}/edge_multiset/attributes", ctx), || format!("graph edges {:?} model {:?}", ga, ma));
     }
 }
 
@@ -90,11 +96,13 @@ pub fn run_ctor(case: &HistCase, out: &mut Outcome) -> Option<(Model, G)> {
                 m.add_node(&uname(*n), *a);
             }
             let es: Vec<(String, String, f64)> = edges.iter().map(|(u, v, w)| (uname(*u), uname(*v), weight_of(case.wmode, *w))).collect();
-            let mr = m.add_edges(&es);
+            let objs: Vec<_> = es.iter().map(|(u, v, w)| mk_edge(u, v, *w)).collect();
+            let esa: Vec<(String, String, f64, Option<i32>)> = es.iter().zip(objs.iter()).map(|((u, v, w), e)| (u.clone(), v.clone(), *w, e.attributes)).collect();
+            let mr = m.add_edges_a(&esa);
             out.api_calls += 1;
             let r = G::new_from_nodes_and_edges(
                 nodes.iter().map(|(n, a)| mk_node(&uname(*n), *a)).collect(),
-                es.iter().map(|(u, v, w)| mk_edge(u, v, *w)).collect(),
+                objs,
                 spec.to_specs(),
             );
             let gr = res_kind(&r);
@@ -164,7 +172,7 @@ impl Prop for C01 {
         "C01"
     }
     fn rule(&self) -> String {
-        "exhaustive block: all 96 GraphSpecs x all op sequences of length <= 3 over a 6-op alphabet; random block: histories of <= 24 (quick) / 60 (thorough) add_node/add_nodes/add_edge/add_edge_tuple/add_edges/add_edge_tuples calls (optionally new_from_nodes_and_edges first) over the universe [b,a,d,c,ab,''] with a uniformly drawn spec index. Each call is compared with a reference model (outcome kind, ordered node list, attributes, edge multiset; full fingerprint unchanged after an error). Non-trivial = the history stored >= 1 edge and hit >= 1 policy event (self-loop policy, missing endpoint, duplicate pair, node re-add, failing batch element); distinct = distinct serialised history.".into()
+        "exhaustive block: all 96 GraphSpecs x all op sequences of length <= 3 over a 6-op alphabet; random block: histories of <= 24 (quick) / 60 (thorough) add_node/add_nodes/add_edge/add_edge_tuple/add_edges/add_edge_tuples calls (optionally new_from_nodes_and_edges first) over the universe [b,a,d,c,ab,''] with a uniformly drawn spec index. Each call is compared with a reference model (outcome kind, ordered node list, node attributes, edge multiset including each stored edge's attributes - two edge objects in three carry a tag unique within the history, so a replaced edge is told from a kept one even when the weights are equal; full fingerprint unchanged after an error). Non-trivial = the history stored >= 1 edge and hit >= 1 policy event (self-loop policy, missing endpoint, duplicate pair, node re-add, failing batch element); distinct = distinct serialised history.".into()
     }
     fn assumptions(&self) -> Vec<String> {
         vec!["node names are Strings, attributes i32; other T/A are not exercised".into(), "the reference model in harness/src/model.rs encodes the C01 statement".into()]
